@@ -26,7 +26,7 @@ FILES = {1: "a.md", 2: "b.txt", 3: "big.md", 4: "eq.md", 5: "ign.md", 6: "node_m
 IMPL = dict(GlobFilters=True, WalkSkipsLinks=True, ForceAppliesIgnore=False)     # FALSE = behaviour of an open finding
 
 
-def make_tree(root, toolign):
+def make_tree(root, toolign, above=False):
     t = os.path.join(root, "tree")
     for rel in FILES.values():
         p = os.path.join(t, rel)
@@ -40,7 +40,8 @@ def make_tree(root, toolign):
     os.symlink("nonexist.md", os.path.join(t, "ln_dangling.md"))
     os.symlink("sub", os.path.join(t, "ln_dir"))
     if toolign:
-        open(os.path.join(t, ".flowmarkignore"), "w").write("# rules\nign.md\n")
+        # the ignore file applies from the directory that holds it downwards: in the working directory or in a strict ancestor of it
+        open(os.path.join(root if above else t, ".flowmarkignore"), "w").write("# rules\nign.md\n")
     return t
 
 
@@ -62,7 +63,7 @@ def _observe(job):
     root = os.path.realpath(tempfile.mkdtemp(prefix="c17-"))
     cwd0 = os.getcwd()
     try:
-        t = make_tree(root, st["toolign"])
+        t = make_tree(root, st["toolign"], above=bool(idx % 2))
         os.chdir(t)
         kw = dict(extend_include=["*.txt"] if st["extinc"] else [], exclude=["drafts/"] if st["excl"] else None,
                   extend_exclude={"none": [], "base": ["deep/"], "path": ["sub/deep/"]}[st["extexcl"]], force_exclude=st["force"],
